@@ -182,8 +182,11 @@ func runC20(c *Ctx) {
 					if !strings.HasSuffix(call.Common().Value.Type().String(), "EntityResolver") {
 						continue
 					}
-					n++
 					top := topFn(fn)
+					if strings.HasPrefix(top.Name(), "_") {
+						continue // the Entity type's ordinary field functions: contained like every field (C04/contained), not run on the _entities goroutines
+					}
+					n++
 					d := recoverDeferBefore(top, in)
 					if fn != top {
 						d = recoverDeferBefore(fn, in)
